@@ -265,3 +265,16 @@ Definition sql_compat (dialect : str) : bool :=
 Definition skeletons_ok (dialect : str) : bool :=
   forallb (fun p => skel_ok (c_sk (snd p)) && negb (top_is_hole (c_sk (snd p)))) (constructs dialect).
 
+
+(* std.math.pow: the FIRST RQ argument is the exponent -- it lands in the second place of the SQL power function *)
+From PV Require Import Gen.GenPratt Gen.GenExpand.
+Definition pow_template_ok (dialect : str) : bool :=
+  match find_template dialect (expand_binop B_Pow) with
+  | Some t =>
+      match t_params t, t_body t with
+      | [p0; p1], Some [CText _; CHole _ 1 _; CText _; CHole _ 0 _; CText _] =>
+          leqb p0 [101;120;112;111;110;101;110;116]%N && leqb p1 [99;111;108;117;109;110]%N
+      | _, _ => false
+      end
+  | None => false
+  end.
